@@ -8,7 +8,7 @@ from ..core import Failure
 from ..model import MP, arr_map, first_diff, leading, order_key
 
 ID = "C19"
-BUDGET = {"quick": 1200, "thorough": 4000}
+BUDGET = {"quick": 1200, "thorough": 12000}
 TECHNIQUE = ("Hypothesis-generated polynomial arrays (zero elements, equal leading terms, negative leading "
              "coefficients, constants) x graded/reverse flags, sort options and target dimensions vs the exact model's "
              "leading term and a reference ranking")
